@@ -117,7 +117,7 @@ func (h *Handler) HandleIQ(iq stanza.IQ, t xmlstream.TokenReadEncoder, start *xm
 	case "close":
 		_, sid := attr.Get(start.Attr, "sid")
 
-		conn, ok := h.streams[sid]
+		conn, ok := h.getStream(sid)
 		if !ok {
 			_, err := xmlstream.Copy(t, iq.Error(stanza.Error{
 				Type:      stanza.Cancel,
@@ -196,7 +196,7 @@ type errorResponder interface {
 }
 
 func handlePayload(h *Handler, errResp errorResponder, p dataPayload, e xmlstream.Encoder) error {
-	conn, ok := h.streams[p.SID]
+	conn, ok := h.getStream(p.SID)
 	if !ok {
 		_, err := xmlstream.Copy(e, errResp.Error(stanza.Error{
 			Type:      stanza.Cancel,
@@ -330,6 +330,14 @@ func (h *Handler) addStream(sid string, conn *Conn) {
 		h.streams = make(map[string]*Conn)
 	}
 	h.streams[sid] = conn
+}
+
+func (h *Handler) getStream(sid string) (*Conn, bool) {
+	h.mu.Lock()
+	defer h.mu.Unlock()
+
+	conn, ok := h.streams[sid]
+	return conn, ok
 }
 
 func (h *Handler) rmStream(sid string) {
